@@ -48,10 +48,10 @@ func c08R1(c *Ctx) {
 			{"trzszTransfer.sendPrefixHash", "(*os.File).Seek", "moving the source to the proven offset"},
 		} {
 			f := c.fn(side.fn)
-			hit, path := reachFromE(f.Blocks[0], 0, c.maySucceed, func(in ssa.Instruction) bool {
+			hit, path := reachFromE(f.Blocks[0], 0, c.maySucceed, c.orWrapper("reposition:"+side.barrier, func(in ssa.Instruction) bool {
 				ci, ok := in.(ssa.CallInstruction)
 				return ok && calleeID(ci.Common()) == side.barrier
-			}, nothingToResume)
+			}), nothingToResume)
 			c.check(hit == nil, c.fnName(f)+"/no-success-without-repositioning", c.pos(f.Pos()), "with something to resume the step succeeds only after "+side.what, "the step can succeed for a non-empty destination without "+side.what+": the old tail / a wrong offset survives a transfer that reports success", c.pathStr(path)...)
 		}
 	}
